@@ -132,6 +132,7 @@ pub fn project(steps: &[Step], names: &[String]) -> Vec<String> {
         match (name, &s.op) {
             ("Reader", Op::Load(_)) => out.push("ReaderCheck".into()),
             ("Reader", Op::Send(2)) => out.push("ReaderSend".into()),
+            ("Reader", Op::DropSender(1)) => out.push("ReaderDropScanner".into()),
             ("Reader", Op::DropSender(2)) => out.push("ReaderExit".into()),
             ("Analysis", Op::Load(_)) => out.push("AnaCheck".into()),
             ("Analysis", Op::Recv(2)) => out.push("AnaRecv".into()),
